@@ -197,18 +197,16 @@ func (in *Interp) exec(fr *frame, ins ssa.Instruction) {
 		it := in.get(fr, x.Iter).(*RangeIter)
 		kt := x.Type().(*types.Tuple)
 		if it.str != nil {
-			// range over a string: ASCII bytes only (one rune per byte); a byte >= 0x80
-			// would need UTF-8 decoding and ends the path as unsupported
+			// range over a string: UTF-8 decoding with the executor branching on the
+			// byte classes (strs.go decodeRune)
 			n := in.strLenConst(it.str, "range over string")
 			if it.j >= n {
 				fr.loc[x] = TupleV{Bool(false), IntC(0), BV(32, 0)}
 				break
 			}
-			b := it.str.at(it.j)
-			if !in.branch(Cmp("bvult", b, BV(8, 0x80))) {
-				in.unsupported("range over a string with a non-ASCII byte")
-			}
-			fr.loc[x] = TupleV{Bool(true), IntC(int64(it.j)), ZExt(b, 32)}
+			r, w := in.decodeRune(it.str, it.j, n)
+			fr.loc[x] = TupleV{Bool(true), IntC(int64(it.j)), r}
+			it.j += w - 1
 			it.j++
 			break
 		}
@@ -792,7 +790,19 @@ func (in *Interp) indexAddr(fr *frame, x *ssa.IndexAddr) Value {
 			return &PtrV{arr: arr, idx: idx}
 		case *StructObj:
 			k, ok := constInt(idx)
-			if !ok || k < 0 || k >= len(arr.f) {
+			if !ok {
+				// case split on the concrete position
+				conds := make([]*Term, len(arr.f)+1)
+				for i := range arr.f {
+					conds[i] = Eq(idx, IX(int64(i)))
+				}
+				conds[len(arr.f)] = Not(And(Cmp("bvsle", IX(0), idx), Cmp("bvslt", idx, IX(int64(len(arr.f))))))
+				k = in.choose(conds)
+				if k == len(arr.f) {
+					in.goPanic("index out of range (array) in " + fr.fn.String())
+				}
+			}
+			if k < 0 || k >= len(arr.f) {
 				in.unsupported("array index")
 			}
 			return &PtrV{cell: arr.f[k]}
